@@ -327,14 +327,20 @@ Section P.
 
   Theorem position_virtual_only_worsens p oll ols osl oss vi is_long sd incl r :
     position_price_impact w unit p oll ols osl oss vi is_long sd incl = Ok r ->
-    exists real, position_price_impact w unit p oll ols osl oss vi is_long sd false = Ok real /\
+    exists ol os d real,
+      uadd w oll ols = Some ol /\ uadd w osl oss = Some os /\
+      pd_new w ol os 1 1 (if is_long then sd else 0) (if is_long then 0 else sd) = Ok d /\
+      price_impact w unit p d = Ok real /\
+      position_price_impact w unit p oll ols osl oss vi is_long sd false = Ok real /\
       fst r <= fst real /\ (0 <= fst real -> r = real) /\
       (r = real \/ (incl = true /\ vi <> None /\ fst r < fst real)).
   Proof.
     unfold position_price_impact. rewrite rbind_ok. intros (ol & H1 & H2). rewrite rbind_ok in H2.
     destruct H2 as (os & H2 & H3). rewrite rbind_ok in H3. destruct H3 as (d & H3 & H4).
-    rewrite rbind_ok in H4. destruct H4 as (real & H4 & H5). exists real.
+    rewrite rbind_ok in H4. destruct H4 as (real & H4 & H5). exists ol, os, d, real.
     rewrite H1. cbn [rbind]. rewrite H2. cbn [rbind]. rewrite H3. cbn [rbind]. rewrite H4. cbn [rbind].
+    apply of_opt_ok in H1. apply of_opt_ok in H2.
+    split; [exact H1|]. split; [exact H2|]. split; [reflexivity|]. split; [reflexivity|].
     split; [rewrite orb_true_r; reflexivity|].
     destruct ((0 <=? fst real) || negb incl) eqn:E.
     - injection H5 as <-. split; [lia|]. split; auto.
@@ -344,5 +350,38 @@ Section P.
         destruct Hor as [->|[-> Hlt]]; [left; reflexivity|]. right.
         repeat split; auto; [destruct incl; [reflexivity|discriminate]|discriminate].
       + injection H5 as <-. split; [lia|]. split; auto.
+  Qed.
+
+  (* ---- sign rules at the API level (with or without virtual inventory) ---- *)
+  Theorem swap_sign_rules p la sa pl ps dl ds vi incl v bc : wf_pi p ->
+    swap_impact_value w unit p la sa pl ps dl ds vi incl = Ok (v, bc) ->
+    exists d, pd_new w la sa pl ps dl ds = Ok d /\
+      (initial_diff d <= next_diff d -> v <= 0) /\
+      (next_diff d < initial_diff d -> same_side d = true -> 0 <= v /\ bc = Improved).
+  Proof.
+    intros Hp H. apply swap_virtual_only_worsens in H.
+    destruct H as (d & [v0 b0] & Hd & Hr & _ & Hle & Heq & _). exists d. split; [exact Hd|]. cbn [fst] in *. split.
+    - intros Hcmp. destruct (Z.eq_dec (initial_diff d) (next_diff d)) as [E|E].
+      + pose proof (unchanged_nonpos p Hp d v0 b0 Hr E). lia.
+      + pose proof (worsened_nonpos p Hp d v0 b0 Hr ltac:(lia)). lia.
+    - intros Hlt Hs. pose proof (improved_same_side_nonneg p Hp d v0 b0 Hr Hlt) as [Hb Hv]. specialize (Hv Hs).
+      specialize (Heq Hv). injection Heq as -> ->. split; assumption.
+  Qed.
+
+  Theorem position_sign_rules p oll ols osl oss vi is_long sd incl v bc : wf_pi p ->
+    position_price_impact w unit p oll ols osl oss vi is_long sd incl = Ok (v, bc) ->
+    exists d, pd_new w (oll + ols) (osl + oss) 1 1 (if is_long then sd else 0) (if is_long then 0 else sd) = Ok d /\
+      (initial_diff d <= next_diff d -> v <= 0) /\
+      (next_diff d < initial_diff d -> same_side d = true -> 0 <= v /\ bc = Improved).
+  Proof.
+    intros Hp H. apply position_virtual_only_worsens in H.
+    destruct H as (ol & os & d & [v0 b0] & Ho1 & Ho2 & Hd & Hr & _ & Hle & Heq & _).
+    apply chk_u_some in Ho1. destruct Ho1 as [_ ->]. apply chk_u_some in Ho2. destruct Ho2 as [_ ->].
+    exists d. split; [exact Hd|]. cbn [fst] in *. split.
+    - intros Hcmp. destruct (Z.eq_dec (initial_diff d) (next_diff d)) as [E|E].
+      + pose proof (unchanged_nonpos p Hp d v0 b0 Hr E). lia.
+      + pose proof (worsened_nonpos p Hp d v0 b0 Hr ltac:(lia)). lia.
+    - intros Hlt Hs. pose proof (improved_same_side_nonneg p Hp d v0 b0 Hr Hlt) as [Hb Hv]. specialize (Hv Hs).
+      specialize (Heq Hv). injection Heq as -> ->. split; assumption.
   Qed.
 End P.
